@@ -114,3 +114,63 @@ mutual
 end
 
 end C10
+
+namespace Arith
+
+theorem inI64_iff (x : Int) :
+    inI64 x = true ↔ (-9223372036854775808 ≤ x ∧ x ≤ 9223372036854775807) := by
+  unfold inI64 i64Min i64Max
+  rw [Bool.and_eq_true]
+  constructor
+  · intro h; exact ⟨of_decide_eq_true h.1, of_decide_eq_true h.2⟩
+  · intro h; exact ⟨decide_eq_true h.1, decide_eq_true h.2⟩
+
+theorem inI64_natAbs (x : Int) (h : inI64 x = true) : x.natAbs < F64.p64 := by
+  rw [inI64_iff] at h; unfold F64.p64; omega
+
+theorem concatN_eq (b : List Nat) (k : Nat) : concatN b k = (List.replicate k b).flatten := by
+  induction k with
+  | zero => rfl
+  | succ n ih => simp [concatN, List.replicate_succ, ih]
+
+/-- `float_result` lets a float through exactly when it is not NaN -/
+theorem floatResult_ok (o : Option Nat) (r : Nat) (h : floatResult o = .ok (.float r)) :
+    F64.isNaN r = false := by
+  unfold floatResult at h
+  split at h
+  · cases h
+  · split at h
+    · cases h
+    · rename_i hn; cases h; simpa using hn
+
+theorem floatResult_ok_eq (o : Option Nat) (r : Nat) (h : floatResult o = .ok (.float r)) : o = some r := by
+  unfold floatResult at h
+  split at h
+  · cases h
+  · split at h
+    · cases h
+    · cases h; rfl
+
+theorem floatResult_ok_float (o : Option Nat) (v : Value) (h : floatResult o = .ok v) :
+    ∃ r, v = .float r ∧ F64.isNaN r = false := by
+  unfold floatResult at h
+  split at h
+  · cases h
+  · split at h
+    · cases h
+    · rename_i hn; cases h; exact ⟨_, rfl, by simpa using hn⟩
+
+theorem floatResult_some (r : Nat) (h : F64.isNaN r = false) : floatResult (some r) = .ok (.float r) := by
+  simp [floatResult, h]
+
+/-- for a non-NaN pattern, `x == 0.0` is "is a zero" -/
+theorem eq_zero_iff (r : Nat) (h : F64.isNaN r = false) : F64.eq r 0 = F64.isZero r := by
+  have h0 : F64.isNaN 0 = false := by decide
+  rw [F64.eq_iff_key r 0 h h0]
+  unfold F64.key F64.isZero
+  have k0 : F64.signBit 0 = false := by decide
+  have m0 : F64.mag 0 = 0 := by decide
+  simp only [k0, m0]
+  cases hs : F64.signBit r <;> simp <;> (by_cases hm : F64.mag r = 0 <;> simp [hm])
+
+end Arith
